@@ -67,6 +67,7 @@ struct Spec {
     eku: Vec<u8>,
     crit_ext: bool,
     bad_sig: bool,
+    serial: u8,
 }
 const DN_NODE: u8 = 17;
 const DN_ICA: u8 = 19;
@@ -82,7 +83,7 @@ fn build(s: &Spec) -> Vec<u8> {
     let tbs_len = {
         let mut tw = WriteBuf::new(&mut buf);
         tw.start_struct(&TLVTag::Anonymous).unwrap();
-        tw.str(&TLVTag::Context(1), &[0x01]).unwrap(); // serial
+        tw.str(&TLVTag::Context(1), &[s.serial]).unwrap(); // serial
         tw.u8(&TLVTag::Context(2), 1).unwrap(); // ECDSA-SHA256
         tw.start_list(&TLVTag::Context(3)).unwrap();
         for (t, v) in &s.issuer {
@@ -156,15 +157,15 @@ struct Keys {
 
 fn base_root(k: &Key) -> Spec {
     Spec { subject: vec![(DN_ROOT, 1)], issuer: vec![(DN_ROOT, 1)], key: k.clone(), signer: k.clone(), akid: k.kid, nb: 1, na: 0,
-           is_ca: true, path_len: None, ku: KU_CERTSIGN | KU_CRLSIGN, eku: vec![], crit_ext: false, bad_sig: false }
+           is_ca: true, path_len: None, ku: KU_CERTSIGN | KU_CRLSIGN, eku: vec![], crit_ext: false, bad_sig: false, serial: 1 }
 }
 fn base_ica(k: &Key, root: &Key) -> Spec {
     Spec { subject: vec![(DN_ICA, 2)], issuer: vec![(DN_ROOT, 1)], key: k.clone(), signer: root.clone(), akid: root.kid, nb: 1, na: 0,
-           is_ca: true, path_len: Some(0), ku: KU_CERTSIGN | KU_CRLSIGN, eku: vec![], crit_ext: false, bad_sig: false }
+           is_ca: true, path_len: Some(0), ku: KU_CERTSIGN | KU_CRLSIGN, eku: vec![], crit_ext: false, bad_sig: false, serial: 1 }
 }
 fn base_noc(k: &Key, parent: &Spec) -> Spec {
     Spec { subject: vec![(DN_NODE, 7), (DN_FABRIC, FAB)], issuer: parent.subject.clone(), key: k.clone(), signer: parent.key.clone(),
-           akid: parent.key.kid, nb: 1, na: 0, is_ca: false, path_len: None, ku: KU_DIGSIG, eku: vec![1, 2], crit_ext: false, bad_sig: false }
+           akid: parent.key.kid, nb: 1, na: 0, is_ca: false, path_len: None, ku: KU_DIGSIG, eku: vec![1, 2], crit_ext: false, bad_sig: false, serial: 1 }
 }
 
 /// The concrete counterpart of CertChain!Apply.
@@ -175,7 +176,7 @@ fn apply(ch: Vec<Spec>, m: &str, k: &Keys) -> Vec<Spec> {
     let exp = (NOW - 10) as u32;
     let fut = (NOW + 10) as u32;
     match m {
-        "none" | "nocKeyNotCsr" | "fabricExists" => {}
+        "none" | "nocKeyNotCsr" | "fabricExists" | "fabricExistsReissuedRoot" => {}
         "nocSigBit" => ch[0].bad_sig = true,
         "icaSigBit" => ch[ica].bad_sig = true,
         "rootSigBit" => ch[n - 1].bad_sig = true,
@@ -331,11 +332,13 @@ pub fn run(args: &[String]) -> i32 {
                     }
                     let ch = build_chain(&k);
                     let certs: Vec<Vec<u8>> = ch.iter().map(build).collect();
-                    if m1 == "fabricExists" || m2 == "fabricExists" {
+                    let reissued = m1 == "fabricExistsReissuedRoot" || m2 == "fabricExistsReissuedRoot";
+                    if m1 == "fabricExists" || m2 == "fabricExists" || reissued {
                         let local_noc = build(&Spec { subject: vec![(DN_NODE, 1), (DN_FABRIC, FAB)], ..base_noc(&local, &root) });
                         let mut ipk = CanonAeadKey::new();
                         ipk.access_mut().copy_from_slice(&[7u8; 16]);
-                        fabrics.add(&crypto, local.secret.reference(), &build(&root), &local_noc, &[], Some(ipk.reference()), 0xfff1, 112233).unwrap();
+                        let existing_root = if reissued { Spec { serial: 2, ..root.clone() } } else { root.clone() };
+                        fabrics.add(&crypto, local.secret.reference(), &build(&existing_root), &local_noc, &[], Some(ipk.reference()), 0xfff1, 112233).unwrap();
                     }
                     if fs.add_trusted_root_cert(&crypto, time, &mode, &certs[certs.len() - 1], &mut buf).is_err() {
                         return false;
